@@ -84,13 +84,23 @@ def build(case):
     return mw
 
 
+HUGE = 10 ** 18      # exactly representable as a float
+FILLS = ["nan", "nan", "nan", "nan", "none", 0, 0, 0.0, 0.0, -0.0, 1, 1.0, -5, -5.0, float(HUGE), -HUGE]
+
+
 def fillv(f):
-    """case fill -> python fill_value: 'nan' -> NaN, 'none' -> None (no filling), int -> float."""
+    """case fill -> the fill_value handed to window(): 'nan' -> NaN, 'none' -> None (no filling);
+    numbers are passed AS GIVEN (int 0, float 0.0 and -0.0 are different arguments for the callee)."""
     if f == "nan":
         return float("nan")
     if f == "none":
         return None
-    return float(f)
+    return f
+
+
+def fill_expect(f):
+    """what a filled slot must read (canonical cell): None for NaN, else the integer value."""
+    return None if f == "nan" else int(f)
 
 
 CRASH_VAL = -987654321     # rendered to Coq for an unexpected exception: no model answer ever equals it
@@ -101,10 +111,10 @@ def run_query(mw, q, via_buffer):
     k = q["k"]
     try:
         if k == "wi":
-            tgt = mw._buffer if via_buffer else mw
+            tgt = mw._buffer if (via_buffer and not q.get("facade")) else mw
             return canon_list(tgt.window(q["s"], q["e"], fill_value=fillv(q["fill"])))
         if k == "wt":
-            tgt = mw._buffer if via_buffer else mw
+            tgt = mw._buffer if (via_buffer and not q.get("facade")) else mw
             return canon_list(tgt.window(dt(q["s"]), dt(q["e"]), fill_value=fillv(q["fill"])))
         if k == "wm":   # mixed index / datetime
             s = dt(q["s"]) if q["sd"] else q["s"]
@@ -302,9 +312,9 @@ def judge_window(sm, slots, fill, got, what):
             if g != sm.m[k]:
                 return [f"{what}: slot newest{k - sm.N:+d} holds {sm.m[k]} but {g} was returned"]
         elif fill != "none":
-            exp = None if fill == "nan" else fill
+            exp = fill_expect(fill)
             if g != exp:
-                return [f"{what}: slot newest{k - sm.N:+d} holds no valid value but {g} was returned instead of the fill {exp}"]
+                return [f"{what}: slot newest{k - sm.N:+d} holds no valid value but {g} was returned instead of the fill value {fill!r}"]
     return []
 
 
@@ -409,7 +419,7 @@ def gen_queries(rng, case, newest_slot, n):
     cap, p, a = case["cap"], case["period"], case["align"]
     qs = []
     base = newest_slot if newest_slot is not None else T0 // p
-    fills = ["nan"] * 6 + [-5, -5, "none"]
+    fills = FILLS
 
     def rts():
         r = rng.random()
@@ -423,14 +433,14 @@ def gen_queries(rng, case, newest_slot, n):
     for _ in range(n):
         r = rng.random()
         if r < 0.22:
-            qs.append({"k": "wi", "s": ridx(), "e": ridx(), "fill": rng.choice(fills)})
+            qs.append({"k": "wi", "s": ridx(), "e": ridx(), "fill": rng.choice(fills), "facade": rng.random() < 0.3})
         elif r < 0.27:
             qs.append({"k": "si", "s": ridx(), "e": ridx()})
         elif r < 0.52:
             s, e = rts(), rts()
             if rng.random() < 0.7 and s > e:
                 s, e = e, s
-            qs.append({"k": "wt", "s": s, "e": e, "fill": rng.choice(fills)})
+            qs.append({"k": "wt", "s": s, "e": e, "fill": rng.choice(fills), "facade": rng.random() < 0.3})
         elif r < 0.64:   # closer together than one period
             s = rts()
             qs.append({"k": "wt", "s": s, "e": s + rng.choice([0, 1, p // 3, p // 2, p - 1, p]), "fill": rng.choice(fills)})
@@ -557,6 +567,23 @@ def boundary_cases():
             out.append({"cap": 1, "period": p, "align": a, "kind": kind, "steps": [
                 dict(RT), dict(RT), U(0, None, q=full), dict(RT), U(0, 10, q=full), U(5, 11, q=full), dict(RT),
                 U(5, None, q=full), U(4, 9, q=full), dict(RT), U(6, 12, q=full)]})
+    # fill_value as a dimension of window(): every kind of value, gaps absent / inside / at the edges,
+    # by index and by datetime, on the ring buffer and through MovingWindow.window
+    all_fills = ["nan", "none", 0, 0.0, -0.0, 1, 1.0, -5, float(HUGE), -HUGE]
+    for kind in ("list", "numpy", "mw"):
+        fq = []
+        for f in all_fills:
+            for facade in (False, True):
+                fq.append({"k": "wi", "s": None, "e": None, "fill": f, "facade": facade})
+                fq.append({"k": "wt", "s": a + (B - 2) * p + 300_000, "e": a + (B + 12) * p + 700_000, "fill": f, "facade": facade})
+            fq.append({"k": "wi", "s": 1, "e": -1, "fill": f})
+        out.append({"cap": 6, "period": p, "align": a, "kind": kind, "steps": [     # no gap, then a pause, then None samples
+            U(0, 10), U(1, 11), U(2, 12), U(3, 13), U(4, 14), U(5, 15, q=fq),       # gaps absent
+            U(8, 18, q=fq),                                                          # slots 6,7 skipped: evicted cells behind a gap
+            U(9, None, q=fq), U(4, None), U(10, 20, q=fq),                           # None samples inside the window
+            U(5, None, q=fq), U(11, None, q=fq)]})                                   # gaps at both edges
+        out.append({"cap": 3, "period": p, "align": a, "kind": kind, "steps": [
+            U(0, None, q=fq), U(1, 11, q=fq), U(2, "nan", q=fq), U(7, 17, q=fq), U(6, 16, q=fq)]})
     # count_covered with a period that is not a binary fraction (3 * 0.1 s // 0.1 s)
     p = 100_000
     B = T0 // p
@@ -591,7 +618,7 @@ def small_scope_cases():
                         if newest is None or k >= newest - cap + 1:
                             newest = k if newest is None else max(newest, k)
                         q = [{"k": "wi", "s": None, "e": None, "fill": "nan"},
-                             {"k": "wt", "s": (newest - cap) * p + 400_000, "e": (newest + 1) * p - 400_000, "fill": -5},
+                             {"k": "wt", "s": (newest - cap) * p + 400_000, "e": (newest + 1) * p - 400_000, "fill": (-5, 0, 0.0, -0.0)[i % 4]},
                              {"k": "ai", "i": 0}, {"k": "ai", "i": -1}, {"k": "ai", "i": 1}]
                         steps.append({"op": "u", "t": k * p, "v": v, "q": q})
                     out.append({"cap": cap, "period": p, "align": a, "kind": "list", "steps": steps})
@@ -641,7 +668,7 @@ def c_fill(f):
         return "None"
     if f == "nan":
         return "(Some None)"
-    return f"(Some (Some {cZ(f)}))"
+    return f"(Some (Some {cZ(int(f))}))"
 
 
 def c_result(r):
@@ -816,4 +843,12 @@ class RingStream(Stream):
                         seen.add("query_datetimes_closer_than_period")
                 if isinstance(r, list) and None in r:
                     seen.add("query_result_has_fill")
+                if q["k"] in ("wi", "wt"):
+                    f = q["fill"]
+                    seen.add("fill=" + (f if isinstance(f, str) else ("-0.0" if (isinstance(f, float) and f == 0 and str(f)[0] == "-")
+                                                                        else "huge" if abs(f) >= HUGE else repr(f))))
+                    if q.get("facade") or case["kind"] == "mw":
+                        seen.add("fill_via_MovingWindow.window")
+                    if isinstance(r, list) and r:
+                        seen.add("fill_query_with_gaps_present" if o["gaps"] else "fill_query_without_gaps")
         return out + sorted(seen)
